@@ -88,9 +88,9 @@ structure ApiCfg where
 
 def opM (ac : ApiCfg) (s : Sys) : Op → M Int Out
   | .new x a => ctorDefault x a >>= fun _ => pure .none
-  | .newn x n a => ctorFill ac.cfg x a true (List.replicate n (.value 0)) >>= fun _ => pure .none
-  | .newv x n v a => ctorFill ac.cfg x a true (List.replicate n (.ext v)) >>= fun _ => pure .none
-  | .newr x .fw a vs => ctorFill ac.cfg x a false (extSrcs vs) >>= fun _ => pure .none
+  | .newn x n a => ctorFill ac.cfg x a Gen.ctorCountChecked (List.replicate n (.value 0)) >>= fun _ => pure .none
+  | .newv x n v a => ctorFill ac.cfg x a Gen.ctorCountValueChecked (List.replicate n (.ext v)) >>= fun _ => pure .none
+  | .newr x .fw a vs => ctorFill ac.cfg x a Gen.ctorForwardRangeChecked (extSrcs vs) >>= fun _ => pure .none
   | .newr x .inp a vs =>
       ctorDefault x a >>= fun _ =>
       tryCatch (appendRangeInput ac.cfg x false s.nextStream 0 vs >>= fun _ => pure Out.none)
